@@ -17,6 +17,7 @@ import (
 	"context"
 	"errors"
 	"fmt"
+	goruntime "runtime"
 	"sort"
 	"strings"
 	"testing"
@@ -75,7 +76,10 @@ type c03lLegacy struct {
 }
 
 type c03lOp struct {
-	K      string `json:"k"` // create add delobj phase del flush gc syncdel reconcile restartd restartc
+	// create add delobj phase del flush gc syncdel reconcile restartd restartc, and
+	// flushadd: the reporter tick (syncNodeRuntime) runs, a CNI ADD for pod P completes
+	// while the tick's write to the API server is in flight, and that write fails
+	K      string `json:"k"`
 	P      int    `json:"p,omitempty"`
 	A      int    `json:"a,omitempty"`
 	B      int    `json:"b,omitempty"`
@@ -144,14 +148,14 @@ func c03lGen(t *rapid.T) c03lScenario {
 		case !m.bound:
 			return []string{"reconcile"}
 		case m.delPending:
-			return []string{"flush", "flush", "delobj"}
+			return []string{"flush", "flush", "flushadd", "flushadd", "delobj"}
 		case !m.sandbox:
 			return []string{"add", "add", "add", "delobj"}
 		default:
 			return []string{"del", "del", "del", "delobj", "delobj", "phase"}
 		}
 	}
-	anyPod := []string{"create", "add", "add", "del", "del", "delobj", "phase"}
+	anyPod := []string{"create", "add", "add", "del", "del", "delobj", "phase", "flushadd"}
 	anyGlobal := []string{"reconcile", "reconcile", "reconcile", "reconcile", "flush", "flush", "gc", "gc", "syncdel", "restartd", "restartc"}
 	n := rapid.IntRange(4, vt.Scale(30, 50)).Draw(t, "nOps")
 	for i := 0; i < n; i++ {
@@ -173,6 +177,11 @@ func c03lGen(t *rapid.T) c03lScenario {
 		case "add":
 			if m.obj && m.bound {
 				m.sandbox, m.ever = true, true
+			}
+		case "flushadd":
+			// the ADD cancels the pod's pending record; the tick's write fails, the others stay pending
+			if m.obj && m.bound {
+				m.sandbox, m.ever, m.delPending = true, true, false
 			}
 		case "del":
 			if m.sandbox {
@@ -205,7 +214,7 @@ func c03lGen(t *rapid.T) c03lScenario {
 			op.P = 0
 		}
 		switch op.K {
-		case "add":
+		case "add", "flushadd":
 			op.A = rapid.IntRange(0, 1).Draw(t, "reportIP")
 		case "phase":
 			op.A = rapid.IntRange(0, 1).Draw(t, "phase")
@@ -270,6 +279,7 @@ type c03lSandbox struct {
 	ips      []string
 	ok       bool // its ADD succeeded
 	up       bool // not torn down yet
+	step     int  // step in which it was started
 }
 
 type c03lSlot struct {
@@ -308,15 +318,18 @@ type c03lWorld struct {
 	crd   *eni.CRDV2
 	svc   *networkService
 
-	failNodeStatus bool // next Node CR status write fails
-	failRuntime    bool // NodeRuntime writes fail while set
+	failNodeStatus bool           // next Node CR status write fails
+	failRuntime    bool           // NodeRuntime writes fail while set
+	inWrite        func()         // runs once inside the next NodeRuntime write (before it is applied or failed)
+	step           int            // index of the running step
+	reportStep     map[string]int // uid -> step whose agent action last wrote `deleted` for it
 	conflict       bool
 
 	slots      []*c03lSlot
 	owners     map[string]c03cloud.Owner // ground truth: the pod object each binding was made for
 	takeover   map[string]bool           // pods that run on addresses the record has not linked to them
-	delIssued  map[string]bool // uid -> a DEL for the (last) sandbox of this pod was processed without error
-	verified   map[string]bool // uid -> the GC's API re-check answered "does not exist"
+	delIssued  map[string]bool           // uid -> a DEL for the (last) sandbox of this pod was processed without error
+	verified   map[string]bool           // uid -> the GC's API re-check answered "does not exist"
 	vnow       time.Time
 	sawPending bool
 }
@@ -326,7 +339,7 @@ func c03lPodID(k int) string   { return "ns/" + c03lPodName(k) }
 
 func c03lNewWorld(c *vt.Ctx, s c03lScenario) *c03lWorld {
 	w := &c03lWorld{c: c, s: s, delIssued: map[string]bool{}, verified: map[string]bool{},
-		owners: map[string]c03cloud.Owner{}, takeover: map[string]bool{}}
+		owners: map[string]c03cloud.Owner{}, takeover: map[string]bool{}, reportStep: map[string]int{}}
 	w.vnow = time.Now().Add(-2 * time.Hour).Truncate(time.Second)
 	w.ctx = aliyunClient.SetBackendAPI(context.Background(), aliyunClient.BackendAPIECS)
 	w.cloud = c03cloud.New("i-1", "vsw-1", "zone-a")
@@ -352,6 +365,7 @@ func c03lNewWorld(c *vt.Ctx, s c03lScenario) *c03lWorld {
 		WithInterceptorFuncs(interceptor.Funcs{
 			Create: func(ctx context.Context, cl client.WithWatch, obj client.Object, opts ...client.CreateOption) error {
 				if rt, ok := obj.(*networkv1beta1.NodeRuntime); ok {
+					w.duringWrite()
 					if w.failRuntime {
 						return apierrors.NewInternalError(errors.New("c03: injected write failure"))
 					}
@@ -367,12 +381,18 @@ func c03lNewWorld(c *vt.Ctx, s c03lScenario) *c03lWorld {
 				return cl.Create(ctx, obj, opts...)
 			},
 			Patch: func(ctx context.Context, cl client.WithWatch, obj client.Object, patch client.Patch, opts ...client.PatchOption) error {
+				if isRuntime(obj) {
+					w.duringWrite()
+				}
 				if isRuntime(obj) && w.failRuntime {
 					return apierrors.NewInternalError(errors.New("c03: injected write failure"))
 				}
 				return cl.Patch(ctx, obj, patch, opts...)
 			},
 			SubResourcePatch: func(ctx context.Context, cl client.Client, sub string, obj client.Object, patch client.Patch, opts ...client.SubResourcePatchOption) error {
+				if isRuntime(obj) {
+					w.duringWrite()
+				}
 				if isRuntime(obj) && w.failRuntime {
 					return apierrors.NewInternalError(errors.New("c03: injected write failure"))
 				}
@@ -423,7 +443,7 @@ func c03lNewWorld(c *vt.Ctx, s c03lScenario) *c03lWorld {
 			ID: e.ID, Status: aliyunClient.ENIStatusInUse, MacAddress: e.MAC, VSwitchID: "vsw-1", SecurityGroupIDs: []string{"sg-1"},
 			PrimaryIPAddress: e.Primary, NetworkInterfaceType: networkv1beta1.ENITypeSecondary,
 			NetworkInterfaceTrafficMode: networkv1beta1.NetworkInterfaceTrafficModeStandard,
-			IPv4: map[string]*networkv1beta1.IP{}, IPv6: map[string]*networkv1beta1.IP{},
+			IPv4:                        map[string]*networkv1beta1.IP{}, IPv6: map[string]*networkv1beta1.IP{},
 			IPv4CIDR: c03cloud.V4CIDR, IPv6CIDR: c03cloud.V6CIDR,
 		}
 		for j, a := range e.V4 {
@@ -458,7 +478,7 @@ func c03lNewWorld(c *vt.Ctx, s c03lScenario) *c03lWorld {
 					w.createPodObject(lg.Slot, uid)
 				}
 				// a running pod taken over: its sandbox is up, the agent has no record of it
-				sl.boxes = append(sl.boxes, &c03lSandbox{uid: uid, cid: fmt.Sprintf("c%d-legacy", lg.Slot), ips: ips, ok: true, up: true})
+				sl.boxes = append(sl.boxes, &c03lSandbox{uid: uid, cid: fmt.Sprintf("c%d-legacy", lg.Slot), ips: ips, ok: true, up: true, step: -1})
 			}
 		}
 		cur := &networkv1beta1.Node{}
@@ -486,6 +506,40 @@ func c03lNewWorld(c *vt.Ctx, s c03lScenario) *c03lWorld {
 	w.db = storage.NewMemoryStorage()
 	w.startAgent()
 	return w
+}
+
+// duringWrite runs the armed action (once) at the moment a NodeRuntime write of the
+// agent is on its way to the API server.
+func (w *c03lWorld) duringWrite() {
+	if f := w.inWrite; f != nil {
+		w.inWrite = nil
+		f()
+	}
+}
+
+// quiesce waits until the goroutines a CNI request left behind have finished (the
+// allocator replies to the ADD first and cancels the pod's pending teardown record
+// afterwards, from its own goroutine): the next step must not overtake that.
+func (w *c03lWorld) quiesce(baseline int) {
+	deadline := time.Now().Add(20 * time.Second)
+	for goruntime.NumGoroutine() > baseline {
+		if time.Now().After(deadline) {
+			w.c.Inconclusive("goroutines of a CNI request did not finish")
+		}
+		time.Sleep(50 * time.Microsecond)
+	}
+}
+
+// sandboxUp: the runtime has a sandbox of that pod uid up (ADD succeeded, no DEL since).
+func (w *c03lWorld) sandboxUp(uid string) *c03lSandbox {
+	for _, sl := range w.slots {
+		for _, b := range sl.boxes {
+			if b.uid == uid && b.ok && b.up {
+				return b
+			}
+		}
+	}
+	return nil
 }
 
 func (w *c03lWorld) startAgent() {
@@ -655,6 +709,11 @@ func (w *c03lWorld) settle(step string, before *networkv1beta1.NodeRuntime) {
 					w.c.Fatalf("step %s: NodeRuntime reports teardown (deleted) for pod uid %s (%s), but no DEL for that pod was processed and no GC verified that it no longer exists",
 						step, u, e.PodID)
 				}
+				if b := w.sandboxUp(u); b != nil && !w.verified[u] {
+					w.c.Fatalf("step %s: NodeRuntime reports teardown (deleted) for pod uid %s (%s) although the pod was given a sandbox again since its DEL: %s (ADD in step %d) is up and no DEL was processed for it",
+						step, u, e.PodID, b.cid, b.step)
+				}
+				w.reportStep[u] = w.step
 				if w.delIssued[u] {
 					w.c.Label("deleted-by:del")
 				} else {
@@ -732,7 +791,7 @@ func (w *c03lWorld) opAdd(op c03lOp) {
 	}
 	sl.seq++
 	cid := fmt.Sprintf("c%d-%d", op.P, sl.seq)
-	box := &c03lSandbox{uid: sl.uid, cid: cid}
+	box := &c03lSandbox{uid: sl.uid, cid: cid, step: w.step}
 	sl.boxes = append(sl.boxes, box)
 	ctx, cancel := context.WithTimeout(w.ctx, 20*time.Second)
 	defer cancel()
@@ -825,6 +884,32 @@ func (w *c03lWorld) opFlush(op c03lOp) {
 	if err != nil {
 		w.c.Label("flush:lost")
 	}
+}
+
+// opFlushAdd: the reporter tick runs; while its write to the API server is in flight a
+// CNI ADD for pod P completes (kubelet re-creating the sandbox); then the write fails.
+// The records the tick wanted to report stay pending, except that of the pod that was
+// just given a sandbox again: its ADD cancelled it and it must never be reported.
+func (w *c03lWorld) opFlushAdd(op c03lOp) {
+	ran := false
+	w.inWrite = func() {
+		ran = true
+		w.c.Trace("    (tick's write in flight)")
+		w.opAdd(op)
+	}
+	w.failRuntime = true
+	err := w.crd.C03SyncNodeRuntime(w.ctx)
+	w.failRuntime = false
+	w.inWrite = nil
+	if !ran {
+		// nothing was pending, the tick made no write: a plain ADD then
+		w.c.Trace("    (tick had nothing to write)")
+		w.opAdd(op)
+		w.c.Label("flushadd:no-write")
+		return
+	}
+	w.c.Trace("    tick: err=%v", err)
+	w.c.Label("flushadd:add-inside-failed-write")
 }
 
 func (w *c03lWorld) opSyncDel(op c03lOp) {
@@ -1031,7 +1116,10 @@ func (w *c03lWorld) strict(i int, tch c03cloud.Touch) {
 			if !uses {
 				continue
 			}
-			if vt.Known(c03lKnownReAdd) && !w.s.Witness {
+			// the listed finding is: `deleted` was flushed BEFORE the pod's re-ADD started
+			// and nothing withdraws it. A report written in or after the ADD's step is
+			// a different failure and is never excused.
+			if rs, ok := w.reportStep[tch.PodUID]; ok && rs < b.step && vt.Known(c03lKnownReAdd) && !w.s.Witness {
 				w.c.Label("known:" + c03lKnownReAdd)
 				return
 			}
@@ -1055,10 +1143,12 @@ func c03lRun(c *vt.Ctx, s c03lScenario) {
 		var before *networkv1beta1.NodeRuntime
 		agentStep := false
 		switch op.K {
-		case "add", "del", "flush", "syncdel", "gc":
+		case "add", "del", "flush", "flushadd", "syncdel", "gc":
 			agentStep = true
 			before = w.runtimeObj()
 		}
+		w.step = i
+		goroutines := goruntime.NumGoroutine()
 		switch op.K {
 		case "create":
 			w.opCreate(op)
@@ -1068,10 +1158,14 @@ func c03lRun(c *vt.Ctx, s c03lScenario) {
 			w.opPhase(op)
 		case "add":
 			w.opAdd(op)
+			w.quiesce(goroutines)
 		case "del":
 			w.opDel(op)
 		case "flush":
 			w.opFlush(op)
+		case "flushadd":
+			w.opFlushAdd(op)
+			w.quiesce(goroutines)
 		case "syncdel":
 			w.opSyncDel(op)
 		case "gc":
